@@ -18,7 +18,8 @@ import (
 //	tempo.file q=<res> trk=<delta>:<u|n|e>,…|… ts=<tick>,…   a file built through the public API (u = tempo event with
 //	      that microseconds-per-quarter value, n = other event, e = end of track), written, read back, queried with
 //	      SMF.TimeAt at the ticks ts and iterated with ReadTracksFrom(...).Do
-//	tempo.dur  q=<res> u=<u> d=<d>,…     MetricTicks(q).Duration(6e7/u, d).Microseconds()  (DurOK support)
+//	tempo.dur  q=<res> u=<u> d=<d>,…     MetricTicks(q).Duration(6e7/u, d).Microseconds() for d < 2^32 and, for every d, TimeAt(d)
+//	      of a file whose only tempo event (u) sits at tick 0, i.e. duration64 on int64 tick counts  (DurOK support)
 //	tempo.inv  q=<res> u=<u> n=<n>,…     Ticks(bpm, Duration(bpm, n)) == n
 //
 // Oracle (judged in Go with math/big, independent of the model): |q·TimeAt(t) − Σ u·ticks| ≤ q·(segments+1),
@@ -36,10 +37,9 @@ type c11Ev struct {
 }
 
 type c11File struct {
-	q       int
-	tracks  [][]c11Ev
-	ts      []int64
-	noJudge bool // correspondence only (judge=0)
+	q      int
+	tracks [][]c11Ev
+	ts     []int64
 }
 
 func (f *c11File) String() string {
@@ -64,11 +64,7 @@ func (f *c11File) String() string {
 	if tss == "" {
 		tss = "-"
 	}
-	j := ""
-	if f.noJudge {
-		j = " judge=0"
-	}
-	return fmt.Sprintf("tempo.file q=%d%s trk=%s ts=%s", f.q, j, strings.Join(tr, "|"), tss)
+	return fmt.Sprintf("tempo.file q=%d trk=%s ts=%s", f.q, strings.Join(tr, "|"), tss)
 }
 
 func parseC11File(op string) (*c11File, bool) {
@@ -173,8 +169,9 @@ func (f *c11File) tempoMap() (m []tcEntry, tempoTracks int) {
 }
 
 // exactGo: numerator of the exact time (denominator q), the number of completed tempo segments, whether some tick
-// difference on the way does not fit uint32 (`wrap`: the code truncates it) and whether some segment lasts longer than
-// the horizon up to which the float arithmetic is claimed to be accurate (`beyond`: not judged).
+// difference on the way does not fit uint32 (`wrap`: judged like any other query since the repair of the uint32
+// truncation, reported as a tag) and whether some segment lasts longer than the horizon up to which the float
+// arithmetic is claimed to be accurate (`beyond`: not judged).
 func exactGo(sorted []tcEntry, t int64, q int64) (num *big.Int, segs int, wrap, beyond bool) {
 	num = new(big.Int)
 	var last int64
@@ -232,9 +229,7 @@ func runC11File(c Case, m *Model) (v Verdict) {
 	sort.SliceStable(sorted, func(a, b int) bool { return sorted[a].tick < sorted[b].tick })
 	// the property speaks about files whose tempo events lie in one track; other files (only generated with pairwise
 	// distinct ticks, where the sorted map is unique) are compared with the model but not judged
-	// and so are ops marked judge=0 (random queries behind a tick gap >= 2^32, where the code's uint32 truncation
-	// bites: known finding, demonstrated by the judged ops of corpus/C11.ops)
-	judged := tempoTracks <= 1 && fields(c.Op)["judge"] != "0"
+	judged := tempoTracks <= 1
 	mf := fields(m.Ask(c.Op))
 	if mf["r"] != "ok" {
 		v.Mismatch = append(v.Mismatch, "model does not accept the op: "+short(fmt.Sprint(mf)))
@@ -436,7 +431,7 @@ func bpmOf(u uint32) float64 {
 	return bpm
 }
 
-func parseDurOp(op string) (q int, u uint32, xs []uint32, ok bool) {
+func parseDurOp(op string) (q int, u uint32, xs []int64, ok bool) {
 	fl := fields(op)
 	var err error
 	if q, err = strconv.Atoi(fl["q"]); err != nil {
@@ -452,11 +447,11 @@ func parseDurOp(op string) (q int, u uint32, xs []uint32, ok bool) {
 		key = "n"
 	}
 	for _, s := range splitNums(fl[key]) {
-		x, err := strconv.ParseUint(s, 10, 32)
-		if err != nil {
+		x, err := strconv.ParseInt(s, 10, 63)
+		if err != nil || x < 0 {
 			return
 		}
-		xs = append(xs, uint32(x))
+		xs = append(xs, x)
 	}
 	return q, u, xs, true
 }
@@ -477,18 +472,40 @@ func runC11Dur(c Case, m *Model) (v Verdict) {
 	q := effQ(q0)
 	bpm := bpmOf(u)
 	mt := smf.MetricTicks(q0)
+	// duration64 (int64 tick counts) is reached through TimeAt of a file whose only tempo event sits at tick 0
+	one := &c11File{q: q0, tracks: [][]c11Ev{{{0, 'u', u}, {0, 'e', 0}}}}
+	var s1 *smf.SMF
+	if p := try(func() {
+		data, err := one.build()
+		if err == nil {
+			s1, err = smf.ReadFrom(bytes.NewReader(data))
+		}
+		if err != nil {
+			s1 = nil
+		}
+	}); p != "" || s1 == nil {
+		v.Oracle = append(v.Oracle, "cannot write/read the one-tempo file: "+p)
+		return
+	}
 	type pt struct {
-		d    uint32
+		d    int64
 		impl int64
 	}
 	var pts []pt
 	for i, d := range ds {
-		impl := mt.Duration(bpm, d).Microseconds()
+		impl := s1.TimeAt(d)
+		if d < 1<<32 {
+			if e := mt.Duration(bpm, uint32(d)).Microseconds(); e != impl {
+				v.Mismatch = append(v.Mismatch, fmt.Sprintf("TimeAt(%d)=%d µs in a file with the single tempo u=%d at tick 0, but MetricTicks(%d).Duration gives %d µs", d, impl, u, q0, e))
+			}
+		} else {
+			v.Tags = append(v.Tags, "dur-ticks>=2^32")
+		}
 		pts = append(pts, pt{d, impl})
 		if d == 0 && impl != 0 {
 			v.Oracle = append(v.Oracle, fmt.Sprintf("DurOK.zero: Duration(u=%d, 0 ticks) = %d µs", u, impl))
 		}
-		ud := new(big.Int).Mul(big.NewInt(int64(u)), big.NewInt(int64(d)))
+		ud := new(big.Int).Mul(big.NewInt(int64(u)), big.NewInt(d))
 		lim := new(big.Int).Mul(big.NewInt(q), big.NewInt(c11Horizon))
 		if ud.Cmp(lim) <= 0 {
 			diff := absBig(new(big.Int).Sub(new(big.Int).Mul(big.NewInt(q), big.NewInt(impl)), ud))
@@ -536,7 +553,12 @@ func runC11Inv(c Case, m *Model) (v Verdict) {
 	bpm := bpmOf(u)
 	mt := smf.MetricTicks(q0)
 	rateOK := q < 10*int64(u) // tick rate below 10^7 per second
-	for i, n := range ns {
+	for i, n64 := range ns {
+		if n64 >= 1<<32 {
+			v.Mismatch = append(v.Mismatch, "tick count outside uint32 in an inverse op")
+			return
+		}
+		n := uint32(n64)
 		d := mt.Duration(bpm, n)
 		back := mt.Ticks(bpm, d)
 		exact := new(big.Int).Mul(big.NewInt(1000*int64(u)), big.NewInt(int64(n))) // / q  nanoseconds
@@ -597,16 +619,28 @@ func genQ(r *Rng) int {
 	}
 }
 
-// maxTicks: the largest tick count whose exact duration at tempo u stays within `limit` microseconds (and in uint32)
-func maxTicks(q int, u uint32, limit int64) int64 {
+// maxTicks64: the largest tick count whose exact duration at tempo u stays within `limit` microseconds
+func maxTicks64(q int, u uint32, limit int64) int64 {
 	if u == 0 {
-		return 1<<32 - 1
+		return 1 << 40
+	}
+	if q == 0 {
+		q = 960
 	}
 	m := new(big.Int).Div(new(big.Int).Mul(big.NewInt(int64(q)), big.NewInt(limit)), big.NewInt(int64(u)))
-	if m.Cmp(big.NewInt(1<<32-1)) > 0 {
-		return 1<<32 - 1
+	if m.Cmp(big.NewInt(1<<56)) > 0 {
+		return 1 << 56
 	}
 	return m.Int64()
+}
+
+// maxTicks: the same, capped to what a delta time (uint32) can hold
+func maxTicks(q int, u uint32, limit int64) int64 {
+	m := maxTicks64(q, u, limit)
+	if m > 1<<32-1 {
+		return 1<<32 - 1
+	}
+	return m
 }
 
 func genGap(r *Rng, q int, u uint32, limit int64, allowZero bool) uint32 {
@@ -680,7 +714,15 @@ func genC11File(r *Rng, tier string) (*c11File, []string) {
 	case 1:
 		limit = 86400e6
 	}
-	multi := r.Chance(1, 8) && k >= 2
+	// one file in five has tick gaps of 2^32 and more between tempo changes / before queries (several maximal deltas
+	// in a row): needs a resolution and tempi at which 2^33 ticks stay inside the horizon
+	bigGap := r.Chance(1, 5) && f.q != 0
+	if bigGap {
+		f.q = r.Pick(32767, 32767, 15360, 24576, 30720, r.Range(8192, 32767))
+		limit = c11Horizon
+	}
+	bigDone := false
+	multi := r.Chance(1, 8) && k >= 2 && !bigGap
 	firstAtZero := r.Bool()
 	repProb := r.Pick(0, 0, 1, 3, 6)
 	var tempoTr []c11Ev
@@ -688,7 +730,24 @@ func genC11File(r *Rng, tier string) (*c11File, []string) {
 	var abs int64
 	used := map[int64]bool{}
 	var allTicks []int64
+	var lastTempoTick int64
+	insertBig := func(force bool) {
+		if !bigGap || !(force || r.Chance(1, 3)) {
+			return
+		}
+		n := r.Range(1, 3)
+		room := maxTicks64(f.q, cur, limit/2) - (abs - lastTempoTick)
+		for j := 0; j < n && room > 1<<32; j++ {
+			d := uint32(1<<32 - 1 - r.Pick(0, 0, 1, 2, 1000))
+			tempoTr = append(tempoTr, c11Ev{d, 'n', 0})
+			abs += int64(d)
+			room -= int64(d)
+			allTicks = append(allTicks, abs)
+			bigDone = true
+		}
+	}
 	for i := 0; i < k; i++ {
+		insertBig(false)
 		// optional ordinary events in between
 		for r.Chance(1, 3) {
 			d := genGap(r, f.q, cur, limit/4, true)
@@ -718,10 +777,15 @@ func genC11File(r *Rng, tier string) (*c11File, []string) {
 		if r.Chance(1, 60) {
 			u = 0
 		}
+		if bigGap && r.Chance(2, 3) {
+			u = uint32(r.Pick(1, 100, 20000, 250000, 500000, 1000000, r.Range(1, 2000000)))
+		}
 		tempoTr = append(tempoTr, c11Ev{d, 'u', u})
 		allTicks = append(allTicks, abs)
 		cur = u
+		lastTempoTick = abs
 	}
+	insertBig(!bigDone)
 	for r.Chance(1, 2) {
 		d := genGap(r, f.q, cur, limit/4, true)
 		tempoTr = append(tempoTr, c11Ev{d, 'n', 0})
@@ -802,40 +866,25 @@ func genC11File(r *Rng, tier string) (*c11File, []string) {
 			add(a)
 		}
 	}
-	mxAfter := maxTicks(f.q, cur, limit)
+	mxAfter := maxTicks64(f.q, cur, limit) - (lastTick - lastTempoTick)
+	if mxAfter < 0 {
+		mxAfter = 0
+	}
 	for i := 0; i < 6; i++ {
 		add(lastTick + int64(r.U64()%uint64(mxAfter+1)))
 	}
 	add(lastTick + mxAfter)
+	for _, o := range []int64{1<<32 - 1, 1 << 32, 1<<32 + 1, 1 << 33, 3<<32 + 7} {
+		if o <= mxAfter+(lastTick-lastTempoTick) {
+			add(lastTempoTick + o)
+		}
+	}
 	add(lastTick + int64(f.q))
 	for i := 0; i < 8 && lastTick > 0; i++ {
 		add(int64(r.U64() % uint64(lastTick+1)))
 	}
 	if len(f.ts) > 400 {
 		f.ts = f.ts[:400]
-	}
-	// queries behind a tick gap >= 2^32 (uint32 truncation in the code, known finding): one file in three keeps them
-	// and is compared with the model only (judge=0), the others drop them
-	{
-		srt := append([]tcEntry(nil), m...)
-		sort.SliceStable(srt, func(a, b int) bool { return srt[a].tick < srt[b].tick })
-		var keep []int64
-		anyWrap := false
-		for _, t := range f.ts {
-			if _, _, wrap, _ := exactGo(srt, t, effQ(f.q)); wrap {
-				anyWrap = true
-			} else {
-				keep = append(keep, t)
-			}
-		}
-		if anyWrap {
-			if r.Chance(1, 3) {
-				f.noJudge = true
-				tags = append(tags, "gap>=2^32(correspondence-only)")
-			} else {
-				f.ts = keep
-			}
-		}
 	}
 	// tags
 	switch {
@@ -873,8 +922,24 @@ func genC11File(r *Rng, tier string) (*c11File, []string) {
 	if f.q <= 3 || f.q >= 32766 {
 		tags = append(tags, "q-extreme")
 	}
-	if lastTick >= 1<<32 {
-		tags = append(tags, "ticks-beyond-2^32(gaps-below)")
+	{
+		srt := append([]tcEntry(nil), m...)
+		sort.SliceStable(srt, func(a, b int) bool { return srt[a].tick < srt[b].tick })
+		beyond32, gap32 := false, false
+		for _, t := range f.ts {
+			if t >= 1<<32 {
+				beyond32 = true
+			}
+			if _, _, wrap, bey := exactGo(srt, t, effQ(f.q)); wrap && !bey {
+				gap32 = true
+			}
+		}
+		if beyond32 {
+			tags = append(tags, "query-tick>=2^32")
+		}
+		if gap32 {
+			tags = append(tags, "tick-gap>=2^32-judged")
+		}
 	}
 	return f, tags
 }
@@ -889,6 +954,9 @@ func genDurOp(r *Rng, n int) (string, []string) {
 		u = 0
 	}
 	mx := maxTicks(int(effQ(q)), u, c11Horizon)
+	if r.Chance(1, 3) {
+		mx = maxTicks64(int(effQ(q)), u, c11Horizon) // int64 tick counts (duration64 through TimeAt)
+	}
 	var ds []string
 	seen := map[int64]bool{}
 	add := func(d int64) {
@@ -907,7 +975,7 @@ func genDurOp(r *Rng, n int) (string, []string) {
 		case 0:
 			d = int64(effQ(q)) * int64(r.Range(1, 5000)) // whole quarters: exact microsecond values
 		case 1:
-			d = int64(1) << uint(r.Range(0, 32))
+			d = int64(1) << uint(r.Range(0, 40))
 			d += int64(r.Range(-1, 1))
 		case 2:
 			d = int64(r.Range(0, 3000))
